@@ -1419,7 +1419,7 @@ func main() {
 		r := vh.NewRng(sd ^ (sd >> 31))
 		for i := 0; i < m.N; i++ {
 			c := genCase(r)
-			vh.Guard(w, vh.MustJSON(c), failTerm, 20, func() vh.Record { return runCase(c) })
+			vh.Guard(w, vh.MustJSON(c), failTerm, 90, func() vh.Record { return runCase(c) })
 		}
 	case "replay":
 		for _, raw := range vh.ReadCases(m.In) {
@@ -1427,7 +1427,7 @@ func main() {
 			if err := json.Unmarshal(raw, &c); err != nil {
 				panic(err)
 			}
-			vh.Guard(w, raw, failTerm, 20, func() vh.Record { return runCase(c) })
+			vh.Guard(w, raw, failTerm, 90, func() vh.Record { return runCase(c) })
 		}
 	}
 }
